@@ -8,11 +8,15 @@ TITLES = {json.loads(l)["id"]: json.loads(l)["title"] for l in open(os.path.join
 CHECKS = {
     "C11": dict(
         text="Coq theorems C11_no_overlap / C11_refines_spec / C11_convert / C11_frames / C11_actions_refine hold for every operation history "
-             "(induction over the history, no bound); the Gallina model is tied to fxprof-processed-profile by running LibMappings<u32> and the Profile API "
+             "(induction over the history, no bound). The model is tied to fxprof-processed-profile in both ways: (a) tools/xlate_lm.py translates the methods of `impl<T> LibMappings<T>` "
+             "(lookup_impl, add_mapping, remove_mapping, convert_address, lookup, new, clear) into Gallina over the model's BTreeMap operations on every run (Generated/LibMappingsGen.v); "
+             "C11_translation_agrees / C11_translation_functions_agree prove the translation equal to the model for every table, mapping and address, and C11_of_translation states no-overlap and "
+             "newest-live-mapping resolution about the translated functions; (b) by running LibMappings<u32> and the Profile API "
              "on generated histories and evaluating model + history specification inside Coq on the implementation's answers.",
-        note="Trusted: Coq kernel; BTreeMap modelled as unique-key association list; harness h_fxprof + JSON read-back; generators. "
+        note="Trusted: Coq kernel; the reading of std's BTreeMap (range / next_back / remove / insert) as operations on a unique-key association list; tools/xlate_lm.py (its reading of the Rust subset: references transparent, `as u32` = mod 2^32, "
+             "u32 addition kept unreduced for the overflow flag, BTreeMap::range panicking on an inverted range); harness h_fxprof + JSON read-back; generators. "
              "Outside the property: empty/inverted ranges, relative addresses beyond 32 bits.",
-        technique="Coq proof (refinement of a history specification by induction) + differential correspondence run evaluated with vm_compute",
+        technique="Coq proof (refinement of a history specification by induction) over a model that is proved equal to a translation of the source regenerated on every run + differential correspondence run evaluated with vm_compute",
         design="4/C11"),
     "C12": dict(
         text="Coq theorems C12_conservation (no underflow/assert, CPU-delta and off-CPU conservation against plain history sums, remainder < I, "
